@@ -25,8 +25,8 @@
     left alone) is FALSE of the code: [C16_fold_refuted] (class
     trailing-backslash). With the proposed repair (notes/C16-fix-3.patch) it
     holds for all texts: [C16_fold_fixed_full]. *)
-From Cicada Require Import Base.Chars Base.Tag Model.Tokenizer Model.Cmds Model.Redirect Model.Rerender
-  Proofs.TokenizerProofs Proofs.RerenderProofs Proofs.FoldProofs.
+From Cicada Require Import Base.Chars Base.Tag Model.Args Model.Tokenizer Model.Cmds Model.Redirect Model.Rerender
+  Proofs.TokenizerProofs Proofs.RerenderProofs Proofs.FoldProofs Proofs.ScriptLinesProofs.
 Local Open Scope N_scope.
 
 Definition plan (l : str) := plan_tokens (parse_line l).
@@ -144,6 +144,34 @@ Example C16_fold_fixed_still_folds :
   fold_lines_fixed w_fold = w_fold.
 Proof. vm_compute. repeat split. Qed.
 
+(** * run_script's per-line loop (function extraction; model Model/Args.v, owned by C15):
+    a line that is neither a function head nor a lone closing brace reaches the
+    script parser / the function body character for character -- in particular a
+    line with a hash inside quotes is not cut -- so [expand_args] and then
+    run_command_line see exactly what -c sees. *)
+Theorem C16_lines_reach_parser : forall ls, forallb plain_line ls = true ->
+  extract_funcs ls false [] [] [] [] = ([], join_nl ls).
+Proof. exact lines_reach_parser. Qed.
+
+Theorem C16_body_lines_reach_function : forall h nm ls t rest enter name0 body0 funcs tn,
+  func_head (trim h) = Some nm -> forallb plain_line ls = true ->
+  func_head (trim t) = None -> func_tail (trim t) = true ->
+  extract_funcs (h :: ls ++ t :: rest) enter name0 body0 funcs tn =
+  extract_funcs rest false nm (join_nl ls) (funcs ++ [(nm, join_nl ls)]) tn.
+Proof. exact body_lines_reach_function. Qed.
+
+(* prog DQ it's #1 DQ x   and   prog 'say DQ hi #2' && echo ok   (DQ = the double quote): as a script
+   and as the body of  function ff {  ...  }  followed by the call  ff *)
+Definition w_qh1 : str := [112;114;111;103;32;34;105;116;39;115;32;35;49;34;32;120].
+Definition w_qh2 : str := [112;114;111;103;32;39;115;97;121;32;34;104;105;32;35;50;39;32;38;38;32;101;99;104;111;32;111;107].
+Example C16_quote_hash_lines :
+  plain_line w_qh1 = true /\ plain_line w_qh2 = true /\
+  function_table (w_qh1 ++ [c_nl] ++ w_qh2 ++ [c_nl]) = ([], w_qh1 ++ [c_nl] ++ w_qh2 ++ [c_nl]) /\
+  function_table ([102;117;110;99;116;105;111;110;32;102;102;32;123;10] ++ w_qh1 ++ [10;125;10;102;102;10]) =
+    ([([102;102], w_qh1 ++ [c_nl])], [102;102;10]) /\
+  expand_args w_qh1 [] = XOk w_qh1 /\ expand_args w_qh2 [[115]; [97]] = XOk w_qh2.
+Proof. vm_compute. repeat split. Qed.
+
 Print Assumptions C16_full.
 Print Assumptions C16_full_any_pass.
 Print Assumptions C16_positional_pass.
@@ -154,3 +182,5 @@ Print Assumptions C16_partial_plan.
 Print Assumptions C16_quoted.
 Print Assumptions C16_fold_refuted.
 Print Assumptions C16_fold_fixed_full.
+Print Assumptions C16_lines_reach_parser.
+Print Assumptions C16_body_lines_reach_function.
